@@ -643,6 +643,8 @@ func scenariosFor(tier string) []vrt.Scenario {
 			adder(cfg{kind: "continuous", workers: wk, gate: "yield", bodyDur: time.Millisecond, runFor: 2 * time.Millisecond})
 		}
 		addDelay(2, cfg{kind: "trigger", workers: 2, ticks: q(2, 3), gate: "barrier", stop: "cancel-q"})
+		// a negative tick first: the next tick's requests must still reach all the workers
+		addDelay(1, cfg{kind: "trigger", workers: 2, ticks: q(-1, 2), gate: "barrier", stop: "cancel-q"})
 		// tick sizes at the 32-bit boundaries (the limit ends the run: what is pending then is discarded in one step)
 		addDelay(1, cfg{kind: "trigger", workers: 2, limit: 3, ticks: q(1 << 31), gate: "barrier", stop: "limit"})
 		addDelay(1, cfg{kind: "trigger", workers: 3, limit: 4, ticks: q(1<<32 + 1), gate: "barrier", stop: "limit"})
